@@ -140,7 +140,7 @@ func c19Scenarios(tier mc.Tier) []mc.Scenario {
 		lists += p
 		p *= int64(np)
 	}
-	lists *= 4 // x what preceded the judged call
+	lists *= 4                 // x what preceded the judged call
 	listsWithInfo := lists * 3 // x signing time in the signer info (only when there is a signer info)
 	var out []mc.Scenario
 	var gen func(prefix []int)
